@@ -60,6 +60,11 @@ func (rl *respDeserializer) getNextValueEx(endAllowed bool) (value respValue, va
 	if line, valid = rl.peekNextLine(); !valid {
 		return
 	}
+	if len(line) == 0 {
+		// a blank line is not a RESP value
+		valid = false
+		return
+	}
 
 	if line[0] == '+' {
 		// simple string
